@@ -90,17 +90,24 @@ func (p *Pipeline) reload(previousGeneration *Pipeline)
   modifies gReloaded, p.filters, p.flow, p.resilience
   ensures gReloaded == ref(p)
 
+// C11: closing a generation closes each of its filters once and leaves the generation's own data - flow, filter
+// table, spec - as it is: a request that already holds this generation still walks the same flow
+ghost var gFiltersClosed int
 func (p *Pipeline) Close()
-  trusted
-  modifies gClosedAfter
-  ensures gClosedAfter == gReloaded
+  flag allocates
+  requires p != nil
+  modifies gFiltersClosed
+  ensures every-filter-is-closed-once: gFiltersClosed == old(gFiltersClosed) + len(p.filters)
+  ensures the-flow-and-the-filter-table-are-kept: p.flow == old(p.flow) && p.filters == old(p.filters) && p.spec == old(p.spec) && p.superSpec == old(p.superSpec)
+  invariant[1] gFiltersClosed == old(gFiltersClosed) + idx$1 && unchanged$1
+  ghost at call Close: gFiltersClosed := gFiltersClosed + 1
 
 func (p *Pipeline) Inherit(superSpec *supervisor.Spec, previousGeneration supervisor.Object, muxMapper context.MuxMapper)
   flag allocates
   requires p != nil && superSpec != nil
   requires same-kind-predecessor: typeIs(previousGeneration, "*Pipeline") && ifaceVal(previousGeneration) != 0 && ifaceVal(previousGeneration) != ref(p)
   requires spec-of-this-kind: typeIs(superSpec.objectSpec, "*Spec")
-  modifies p.superSpec, p.spec, p.filters, p.flow, p.resilience, gReloaded, gClosedAfter
+  modifies p.superSpec, p.spec, p.filters, p.flow, p.resilience, gReloaded, gClosedAfter, gFiltersClosed
   ensures old-generation-closed-only-after-the-new-one-is-built: gClosedAfter == ref(p) && gReloaded == ref(p)
   ensures new-spec-installed: p.superSpec == superSpec
   ghost at call Close: gClosedAfter := gReloaded
